@@ -37,6 +37,22 @@ def gen(rng, tier):
                     acts.append(dict(op='order_shares', id='NOSUCH.XSHE', amt=100, style='mkt'))
                 else:
                     acts.append(dict(op='order_shares', id=oid, amt=100, style=['limabs', 'nan']) if oid not in W.FUTS else dict(op='buy_open', id=oid, amt=1, style=['limabs', 'nan']))
+    stocks_ = [x for x in ids if x not in W.FUTS]
+    if stocks_ and rng.random() < 0.3 and scn['cfg']['base']['frequency'] == '1d':
+        # a listed, unsuspended stock without market data on some day (no bar in the bundle): every order style must be refused at creation
+        sid = rng.choice(stocks_)
+        have = [i for i in range(scn['start_i'] + 1, scn['end_i'] + 1) if w.bar(sid, w.days[i]) and w.bar(sid, w.days[i - 1])]
+        if have:
+            gaps = rng.sample(have, min(len(have), rng.randint(1, 2)))
+            scn['world_overrides'] = dict(drop_bars={sid: [W.dint(w.days[i]) for i in gaps]})
+            for i in gaps:
+                ref = w.bar(sid, w.days[i - 1])['close']
+                for ph in ('open_auction', 'handle_bar'):
+                    acts = scn['script'].setdefault('%d|%s|0' % (i, ph), [])
+                    for _ in range(rng.randint(1, 2)):
+                        acts.append(dict(op=rng.choice(['order_shares', 'order_value', 'order_percent', 'order_target_value', 'order_lots']), id=sid,
+                                         amt=rng.choice([100, 300, 2]) if rng.random() < 0.5 else rng.choice([5000.0, 0.1]),
+                                         style=rng.choice(['mkt', ['limabs', round(ref, 2)], ['limabs', round(ref * 1.01, 2)]])))
     risk = scn['cfg']['mod']['sys_risk']
     risk.update(validate_cash=rng.random() < 0.7, validate_price=rng.random() < 0.7, validate_is_trading=rng.random() < 0.7, validate_self_trade=rng.random() < 0.3)
     sa = scn['cfg']['mod']['sys_accounts']
@@ -49,7 +65,7 @@ globals().update(acct_prop.make(
     'C16', components=['validate.'], clauses=['C16.'], gen=gen, analyser=ordering.analyse, prelude=ordering.PRELUDE,
     coq=['Model/Sizing.v', 'Model/Validators.v', 'Model/Phases.v', 'Proofs/ValidatorsFacts.v', 'Gen/ApiPhases.v', 'Gen/ValidatorChain.v'], gen_mods=['ApiPhases', 'ValidatorChain'],
     rule=('random orders on instruments before listing, on the listing day, on suspended days, on and after the delisting day, with limit prices at '
-          'and 0.0001 / 0.01 around the band edges, over cash and over the closable holding, with every combination of validator switches, plus a '
+          'and 0.0001 / 0.01 around the band edges, on days without market data for a listed unsuspended stock, over cash and over the closable holding, with every combination of validator switches, plus a '
           'malformed stream (unknown instrument, NaN limit price); a case is the verdict on one order that reached the validator chain computed by '
           'Model/Validators.v from the state before the call; distinct non-trivial = distinct (reason x instrument kind x effect x style x listed x '
           'suspended) classes'),
